@@ -84,13 +84,13 @@ def rule_fixed_stays(chk, prog):
 
     def mkroute():
         return Obj("Avoid::Polygon", {"_id": 0, "ps": Vec([Obj("Avoid::Point", {"x": Poly.var("p%d.x" % i), "y": Poly.var("p%d.y" % i), "id": 0, "vn": 8}) for i in range(4)], "Avoid::Point"), "ts": Vec([])})
-    for dim in (0, 1):
+    for dim, JU in ((0, False), (1, False), (0, True), (1, True)):      # JU: the unifying pre-pass clamps to the channel just the same
         for fixed in (True, False):
             route = mkroute()
             hooks = {"Avoid::ConnRef::displayRoute": lambda it, n, env, route=route: route,
                      "Avoid::ConnRef::router": lambda it, n, env: Obj("Avoid::Router", {}),
                      "Avoid::Router::debugHandler": lambda it, n, env: None}
-            seg = default_obj(prog, "Avoid::NudgingShiftSegment", {"connRef": Obj("Avoid::ConnRef", {}), "variable": Obj("Avoid::Variable", {"finalPosition": F}),
+            seg = default_obj(prog, "Avoid::NudgingShiftSegment", {"connRef": Obj("Avoid::ConnRef", {"m_has_fixed_route": False}), "variable": Obj("Avoid::Variable", {"finalPosition": F}),
                                                                    "indexes": Vec([1, 2], "unsigned long"), "fixed": fixed, "dimension": dim,
                                                                    "minSpaceLimit": lo, "maxSpaceLimit": hi, "finalSegment": True})
 
@@ -104,7 +104,7 @@ def rule_fixed_stays(chk, prog):
             # note: the hooks close over `route`, which the interpreter mutates; rebuild per path
             results = []
 
-            def run2(o, dim=dim, fixed=fixed):
+            def run2(o, dim=dim, fixed=fixed, JU=JU):
                 rt = mkroute()
                 hk = {"Avoid::ConnRef::displayRoute": lambda it, n, env: rt,
                       "Avoid::ConnRef::router": lambda it, n, env: Obj("Avoid::Router", {}),
@@ -112,7 +112,7 @@ def rule_fixed_stays(chk, prog):
                 sg = copy.deepcopy(seg)
                 it = Interp(prog, o, hooks=hk)
                 try:
-                    it.call(fn, sg, None, None, arg_values=[False])
+                    it.call(fn, sg, None, None, arg_values=[JU])
                     return ("ret", rt)
                 except AssertFail as e:
                     return ("assert", str(e))
@@ -180,7 +180,7 @@ def rule_fixed_stays(chk, prog):
                         hooks = {"Avoid::ConnRef::displayRoute": lambda it, n, env, route=route: route,
                                  "Avoid::ConnRef::router": lambda it, n, env: Obj("Avoid::Router", {}),
                                  "Avoid::Router::routingOption": lambda it, n, env, v=nudge_final: v}
-                        seg = default_obj(prog, "Avoid::NudgingShiftSegment", {"connRef": Obj("Avoid::ConnRef", {}), "variable": None, "indexes": Vec([0, 1]),
+                        seg = default_obj(prog, "Avoid::NudgingShiftSegment", {"connRef": Obj("Avoid::ConnRef", {"m_has_fixed_route": False}), "variable": None, "indexes": Vec([0, 1]),
                                                                  "fixed": fixed, "finalSegment": final, "singleConnectedSegment": False,
                                                                  "sBend": zig, "zBend": False, "dimension": 0,
                                                                  "checkpoints": Vec([Obj("Avoid::Point", {"x": 0, "y": 0})] * ncp),
@@ -664,6 +664,114 @@ def rule_gap_rewrite(chk, prog):
         (r.bad if bad else r.ok)(name, fn.loc(lp), bad or "")
 
 
+def rule_weight_writeback(chk, prog):
+    """Holding a segment in the solver and refusing to move it on the way back must be the same decision."""
+    from ..microai.interp import Oracle
+    r = chk.rule("FIXED-DECISION-CONSISTENT", "NudgingShiftSegment::createSolverVariable and ::updatePositionsFromSolver interpreted on every segment kind "
+                 "(fixed / free) x (S- or Z-bend / not) x (final segment / not), fixed ones also for connectors with a user-fixed route: the route "
+                 "coordinate of the segment is written back exactly when the segment's solver variable is NOT the fixed one "
+                 "(fixedSegmentID with fixedWeight) -- a segment the solver was allowed to move but whose new position is thrown away "
+                 "leaves the segments ordered around it overlapping it, and one that is held fixed but written moves a fixed route", floor=8)
+    fc = prog.fn("Avoid::NudgingShiftSegment::createSolverVariable")
+    fu = prog.fn("Avoid::NudgingShiftSegment::updatePositionsFromSolver")
+    Fr = Fraction
+    n = 0
+    for fixed in (False, True):
+        for zig in (False, True):
+            if fixed and zig:
+                continue                      # fixed segments are built by the 4-argument constructor: never a zig-zag
+            for final in (False, True):
+                for fixedroute in (False, True):
+                    if fixedroute and not fixed:
+                        continue              # unreachable: every segment of a fixed-route connector is built fixed (FIXED-ROUTE-NOT-SHIFTABLE)
+                    route = Obj("Avoid::Polygon", {"_id": 0, "ps": Vec([Obj("Avoid::Point", {"x": Fr(10 * i), "y": Fr(7), "id": 0, "vn": 8}) for i in range(4)], "Avoid::Point"), "ts": Vec([])})
+                    hooks = {"Avoid::ConnRef::displayRoute": lambda it, nd, env, route=route: route,
+                             "Avoid::ConnRef::router": lambda it, nd, env: Obj("Avoid::Router", {}),
+                             "Avoid::Router::debugHandler": lambda it, nd, env: None,
+                             "Avoid::Router::routingOption": lambda it, nd, env: False,
+                             "Avoid::ConnRef::hasFixedRoute": lambda it, nd, env, fixedroute=fixedroute: fixedroute}
+                    seg = default_obj(prog, "Avoid::NudgingShiftSegment", {
+                        "connRef": Obj("Avoid::ConnRef", {"m_has_fixed_route": fixedroute}), "variable": None, "indexes": Vec([1, 2], "unsigned long"),
+                        "fixed": fixed, "dimension": 1, "minSpaceLimit": Fr(0), "maxSpaceLimit": Fr(20), "finalSegment": final,
+                        "sBend": zig, "zBend": False, "singleConnectedSegment": False, "checkpoints": Vec([], "Avoid::Point")})
+                    created = []
+                    it = Interp(prog, Oracle([]), hooks=hooks)
+                    it.ctor_hooks = {"Avoid::Variable": lambda it_, o, args, env: (o.f.__setitem__("id", it_.ev(args[0], env)), o.f.__setitem__("desiredPosition", it_.ev(args[1], env)),
+                                                                                   o.f.__setitem__("weight", it_.ev(args[2], env)), o.f.__setitem__("finalPosition", Fr(13)), created.append(o))}
+                    n += 1
+                    r.count()
+                    inst = "%s, %s, %s, %s" % ("fixed" if fixed else "free", "S-bend" if zig else "no zig-zag", "final segment" if final else "inner segment",
+                                               "user-fixed route" if fixedroute else "routed")
+                    try:
+                        it.call(fc, seg, None, None, arg_values=[False])
+                        var = seg.f.get("variable")
+                        if not isinstance(var, Obj):
+                            raise AnalysisBroken("createSolverVariable left no variable")
+                        var.f["finalPosition"] = Fr(13)
+                        it.call(fu, seg, None, None, arg_values=[False])
+                    except Unsupported as e:
+                        raise AnalysisBroken("nudging segment methods outside the interpreter subset (%s): %s" % (inst, e))
+                    except AssertFail as e:
+                        r.bad(inst, fc.where(), "assertion fails: %s" % e)
+                        continue
+                    held = (var.f.get("id") == 1 and Fraction(var.f.get("weight")) == Fraction(100000))
+                    written = any(Fraction(p_.f["y"]) != Fr(7) for p_ in route.f["ps"].items)
+                    bad = None
+                    if held and written:
+                        bad = "the segment is held by the fixed solver variable but its route coordinate is overwritten with the solver's position"
+                    elif not held and not written:
+                        bad = ("the solver may move this segment (variable id %s, weight %s) but the new position is not written to the route: the "
+                               "segments the solver ordered around it end up on top of it" % (var.f.get("id"), var.f.get("weight")))
+                    (r.bad if bad else r.ok)(inst, fu.where(), bad or "")
+
+
+def rule_fixed_route_segments(chk, prog):
+    r = chk.rule("FIXED-ROUTE-NOT-SHIFTABLE", "buildOrthogonalNudgingSegments: a SHIFTABLE NudgingShiftSegment (8-argument constructor) is never built for a "
+                 "segment of a connector with a user-specified fixed route -- every such construction is reached only past a test of "
+                 "hasFixedRoute() (path condition incl. early `continue`s entails its negation): middle segments included, not just the ends", floor=1)
+    fn = prog.fn("Avoid::buildOrthogonalNudgingSegments")
+    k = 0
+    for n in fn.nodes():
+        if n.get("k") == "CXXNewExpr" and n.get("at") == "Avoid::NudgingShiftSegment":
+            ctor = [c for c in n["ch"] if c.get("k") == "CXXConstructExpr"][0]
+            if len(ctor["ch"]) != 8:
+                continue
+            k += 1
+            r.count()
+            pc = path_condition(fn, n, inline=False, early=True)
+            fr = [a for a in atoms(pc) if a.endswith(".hasFixedRoute()")]
+            ok = bool(fr) and entails(pc, ("not", ("atom", fr[0])))
+            (r.ok if ok else r.bad)("shiftable segment at line %s" % n.get("l"), fn.loc(n), "" if ok else
+                                    "a shiftable segment can be built for a connector whose route the user has fixed: nudging pushes and centres the "
+                                    "middle segments of a fixed route")
+    if k == 0:
+        raise AnalysisBroken("buildOrthogonalNudgingSegments: no shiftable segment construction found")
+
+
+def rule_segments_represented(chk, prog):
+    """Nudging can only keep apart what it knows about: every segment of every orthogonal connector is represented, movable or not."""
+    r = chk.rule("SEGMENTS-ALL-REPRESENTED", "buildOrthogonalNudgingSegments: a connector is left out only because it is not orthogonally routed, and "
+                 "a route segment only because it does not run in the dimension being processed or has zero length; every other `continue` "
+                 "of the two loops follows the creation of a NudgingShiftSegment (shiftable or fixed) for the segment -- a straight connector's "
+                 "single immovable segment, too, is what keeps other connectors' segments off its line", floor=3)
+    fn = prog.fn("Avoid::buildOrthogonalNudgingSegments")
+    conts = [n for n in fn.nodes() if n.get("k") == "ContinueStmt"]
+    if len(conts) < 3:
+        raise AnalysisBroken("buildOrthogonalNudgingSegments: skip sites not found")
+    for c in conts:
+        r.count()
+        blk = [a for a in fn.ancestors(c) if a.get("k") == "CompoundStmt"][0]
+        created = any(x.get("k") == "CXXNewExpr" and x.get("at") == "Avoid::NudgingShiftSegment" and x.get("l", 0) <= c.get("l", 0) for x in walk(blk))
+        if created:
+            r.ok("continue at line %s" % c.get("l"), fn.loc(c), "after a segment was created")
+            continue
+        ats = [a for a in atoms(path_condition(fn, c, inline=False)) if ".end()" not in a and ".size()" not in a]
+        extra = [a for a in ats if not (re.search(r"routingType\(\) != Avoid::ConnType_Orthogonal", a) or
+                                        re.search(r"\.ps\[\(?i( - 1)?\)?\]\[\w+\] == \w+\.ps\[\(?i( - 1)?\)?\]\[\w+\]\)$", a))]
+        (r.ok if not extra else r.bad)("continue at line %s" % c.get("l"), fn.loc(c), "" if not extra else
+                                       "a connector / segment is left out of nudging under %s: nothing then keeps other connectors' segments off it" % sorted(extra))
+
+
 _PAIR_SITES_REVIEWED = {
     "Avoid::ImproveOrthogonalRoutes::buildOrthogonalNudgingOrderInfo": "conn = connRefs[ind1], conn2 = connRefs[ind2] with ind2 starting at ind1 + 1: two "
                                                                          "different entries of the router's connector list",
@@ -706,6 +814,9 @@ def run(chk):
     prog = chk.load()
     cg = CallGraph(prog)
     chk.guard(rule_pair_distinct, chk, prog)
+    chk.guard(rule_segments_represented, chk, prog)
+    chk.guard(rule_fixed_route_segments, chk, prog)
+    chk.guard(rule_weight_writeback, chk, prog)
     chk.guard(rule_end_segments, chk, prog)
     chk.guard(rule_fixed_stays, chk, prog)
     chk.guard(rule_no_growth, chk, prog, cg)
